@@ -30,6 +30,8 @@ def obj_sx(c):
         return f"({k} {q(c[1])})"
     if k == "resourceCost":
         return f"(resourceCost {lst(c[1], q)})"
+    if k == "flowtimeSingleResource":
+        return f"(flowtimeSingleResource {q(c[1])} {opt(c[2], X.pair)})"
     raise ValueError(k)
 
 
@@ -101,6 +103,9 @@ def do(real, d):
                 ps.ObjectiveMaximizeResourceUtilization(resource=X.resource_named(real, c[1]))
             elif k == "resourceCost":
                 ps.ObjectiveMinimizeResourceCost(list_of_resources=[X.resource_named(real, r) for r in c[1]])
+            elif k == "flowtimeSingleResource":
+                ps.ObjectiveMinimizeFlowtimeSingleResource(
+                    resource=X.resource_named(real, c[1]), **({"time_interval": tuple(c[2])} if c[2] is not None else {}))
             elif k == "maximizeMaxBuffer":
                 ps.ObjectiveMaximizeMaxBufferLevel(buffer=real.buffers[c[1]])
             elif k == "minimizeMaxBuffer":
